@@ -45,8 +45,10 @@ def layerDetails : Err → List Str
     | .opaqueLeaf _ d _ => d.rep
     | .user u _ => u.safe
     | _ => []
-  | .barrier _ _ masked =>
-      chainFill masked ++ [vf masked]
+  | .barrier _ m masked =>
+      match m.recv with
+      | some r => r
+      | none => chainFill masked ++ [vf masked]
   | .wrap _ k _ =>
     match k with
     | .withPrefix p => [redactStrip p]
